@@ -502,6 +502,9 @@ SPECIAL = [
     # a shutdown request arriving in the middle of a poll round of slow modules (the poll interval is 5 s, a read takes 1 s)
     *[(f'slow-readers-one-thread@{t}', {'m0': {'cls': 'WithIo', 'uri': 'x://1', 'slow': 1.0}, 'm1': {'cls': 'WithIo', 'uri': 'x://1', 'slow': 1.0},
                                           'm2': {'cls': 'WithIo', 'uri': 'x://1', 'slow': 1.0}}) for t in (5.5, 6.5, 7.5, 8.5, 9.5, 10.5, 11.5)],
+    # the same on the thread of a communicator that is not polled itself (wave 8, S15k)
+    *[(f'slow-readers-on-quiet-io@{t}', {'io1': {'cls': 'IoQuiet'}, 'm0': {'cls': 'WithIo', 'io': 'io1', 'slow': 1.0},
+                                         'm1': {'cls': 'WithIo', 'io': 'io1', 'slow': 1.0}}) for t in (5.5, 6.5, 7.5)],
     *[(f'slow-readers-own-threads@{t}', {'m0': {'cls': 'Poll', 'slow': 1.0}, 'm1': {'cls': 'Poll', 'slow': 2.0, 'a1': 'm0', 'touch': 'init'}})
       for t in (5.5, 6.5)],
     ('two-owners-of-one-uri-user-first', {'m0': {'cls': 'Poll', 'a1': 'm2', 'a2': 'm1', 'touch': 'init'},
